@@ -113,7 +113,7 @@ def check(ctx):
     seen_variants = set()
     for b, bi, si, rv in sites:
         tb = TermBuilder(F, b)
-        agg = tb.rvalue_term(rv, bi, si)
+        agg = inline_deep(F, tb.rvalue_term(rv, bi, si))     # private helpers are looked through (constructors are not)
         v = rv['variant']
         seen_variants.add(v)
         site = ctx.site(b, bi, si)
@@ -174,7 +174,7 @@ def check(ctx):
         ctx.lost('C01.1', 'no construction site of Assertion')
     for b, bi, si, rv in asites:
         tb = TermBuilder(F, b)
-        agg = tb.rvalue_term(rv, bi, si)
+        agg = inline_deep(F, tb.rvalue_term(rv, bi, si))
         site = ctx.site(b, bi, si)
         ctx.ok('C01.1', site, 'construction site of Assertion')
         fields = dict(zip(agg[4], agg[3]))
